@@ -193,6 +193,13 @@ func PEImage(o PEOpts) *rapid.Generator[[]byte] {
 			}
 			le.PutUint32(h[16:], secs[idx].size)
 			le.PutUint32(h[20:], secs[idx].ptr)
+			if rapid.IntRange(0, 5).Draw(t, "other_fields_at_boundaries") == 0 {
+				// the header fields the digest does not depend on (the section's bytes in the file are SizeOfRawData at
+				// PointerToRawData, whatever the loader is told about memory) take the values code likes to test for
+				le.PutUint32(h[8:], rapid.SampledFrom([]uint32{0, 0, 1, secs[idx].size, secs[idx].size + 1, 0xffffffff}).Draw(t, "virtualsize"))
+				le.PutUint32(h[12:], rapid.SampledFrom([]uint32{0, 0x1000, secs[idx].ptr, 0xfffff000}).Draw(t, "virtualaddress"))
+				le.PutUint32(h[36:], rapid.SampledFrom([]uint32{0, 0x20, 0x40, 0x80, 0x60000020, 0xc0000080, 0x02000000, 0xffffffff}).Draw(t, "characteristics"))
+			}
 			le.PutUint16(h[32:], 0) // NumberOfRelocations (debug/pe allocates 10 bytes per declared relocation: known finding of C13)
 		}
 		return img
